@@ -458,6 +458,21 @@ def explore(build, max_paths=4096):
     return results
 
 
+def explore_iter(build, max_paths=4096):
+    """streaming variant of explore: yields (S, value) per feasible path without keeping them"""
+    pending = [[]]
+    n = 0
+    while pending:
+        prefix = pending.pop()
+        S = BSession(prefix)
+        val = build(S)
+        n += 1
+        pending.extend(S.pending)
+        yield S, val
+        if n >= max_paths and pending:
+            raise PathLimit(f"more than {max_paths} paths")
+
+
 def zand(xs):
     xs = [z(x) for x in xs]
     return z3.And(*xs) if xs else z3.BoolVal(True)
